@@ -11,6 +11,9 @@ ASSUMPTIONS = [
     "recovers a longitude there that the real-number model cannot; the search measures the 3-D error instead",
     "arcsin is a local operation class (Asin) of the model: Float.asin in the driver, Real.arcsin in the theorems",
     "numpy's deg2rad/rad2deg are x*(pi/180), x*(180/pi); np.dot/np.matmul summation order is not modelled (1e-12 tolerance)",
+    "that a live lat-lon / temporal CovModel object carries no geometric state besides (flags, dim, len_scale, anis, angles) - the setter "
+    "state machine GSV.Model.LatLon.msStep - is tied by read / change / read histories (state exact, isometrize / anisometrize 1e-12 "
+    "after every setter), not proved",
 ]
 
 RADII = [1.0, 57.29577951308232, 6371.0]   # RADIAN_SCALE, DEGREE_SCALE, KM_SCALE
@@ -146,6 +149,171 @@ class KernelSpy:
 
     def __exit__(self, *a):
         self.V._unstructured = self.orig
+
+
+# ====================================================================== in-place histories of model objects
+def noa(d):
+    return d * (d - 1) // 2
+
+
+def gen_hist_config(rng):
+    """(latlon, temporal, full dim): temporal metric (spatial dim 1-3), lat-lon, lat-lon + temporal, plain (a few)"""
+    k = rng.rand()
+    if k < 0.45:
+        return False, True, int(rng.randint(1, 4)) + 1
+    if k < 0.65:
+        return True, False, 3
+    if k < 0.9:
+        return True, True, 4
+    return False, False, int(rng.randint(1, 5))
+
+
+def gen_vals(rng, kind, dim, bad=True):
+    """a value as the caller writes it for the anis / angles / len_scale setter: correct, short, long or empty list, or a scalar"""
+    want = {"anis": dim - 1, "angles": noa(dim), "len": dim}[kind]
+    r = rng.rand()
+    ln = want if r < 0.5 else int(rng.randint(0, want + 3))
+    if kind == "len":
+        ln = max(ln, 1)
+    if kind == "angles":
+        v = np.round(rng.uniform(-3, 3, ln), 3)
+        v[rng.rand(ln) < 0.15] = 0.0
+    else:
+        v = np.round(np.exp(rng.uniform(-1.5, 1.5, ln)), 3)
+        if kind == "len" and ln > 1 and rng.rand() < 0.3:
+            v[:] = v[0]                                     # equal length scales: isotropic
+        if bad and ln > (1 if kind == "len" else 0) and rng.rand() < 0.08:
+            v[int(rng.randint(1 if kind == "len" else 0, ln))] = [0.0, -1.0, float("nan")][int(rng.randint(3))]
+    v = [float(x) for x in v]
+    if len(v) >= 1 and rng.rand() < (0.5 if kind == "len" else 0.12):
+        return v[0]
+    return v
+
+
+def gen_history13(rng, latlon, temporal, dim, bad=True, nops=None):
+    """setter history [(kind, value)]; the dimension is followed (lat-lon: forced)"""
+    ops, last = [], {}
+    lo = 2 if temporal else 1
+    for _ in range(int(rng.randint(1, 9)) if nops is None else nops):
+        k = str(rng.choice(["anis", "angles", "len", "dim"], p=[.25, .25, .25, .25]))
+        if k in last and rng.rand() < 0.5:
+            # re-assign the previous value of this kind with ONE entry changed
+            v = list(last[k])
+            v[int(rng.randint(len(v)))] = float(np.round(rng.uniform(-3, 3) if k == "angles" else np.exp(rng.uniform(-1.5, 1.5)), 3))
+            ops.append((k, v))
+            continue
+        if k == "dim":
+            d = int(rng.randint(lo, 5))
+            if bad and rng.rand() < 0.04:
+                d = 0
+            ops.append(("dim", d))
+            if d >= 1 and not latlon:
+                dim = d
+        else:
+            v = gen_vals(rng, k, dim, bad)
+            if isinstance(v, list) and len(v) > 0 and (k == "angles" or all(x > 0 for x in v)):
+                last[k] = v
+            ops.append((k, v))
+    return ops
+
+
+def apply_op13(m, op):
+    k, v = op
+    try:
+        with warnings.catch_warnings(), np.errstate(all="ignore"):
+            warnings.simplefilter("ignore")
+            if k == "anis":
+                m.anis = v
+            elif k == "angles":
+                m.angles = v
+            elif k == "len":
+                m.len_scale = v
+            elif k == "dim":
+                m.dim = v
+            else:
+                raise KeyError(k)
+        return "ok"
+    except ValueError:
+        return "ValueError"
+
+
+def hist_case13(rng, gs, add):
+    """one lat-lon / temporal model object: constructor, then setters; isometrize / anisometrize are READ after the constructor and
+    after every setter (each with probability 0.7, both at the end) and compared with GSV.Model.LatLon.msRun (state exact, 1e-12)"""
+    latlon, temporal, dim = gen_hist_config(rng)
+    R = gen_radius(rng) if latlon else 1.0
+    ls = gen_vals(rng, "len", dim, bad=False)
+    anis = gen_vals(rng, "anis", dim, bad=False)
+    angles = gen_vals(rng, "angles", dim)
+    Model = [gs.Exponential, gs.Gaussian, gs.Matern, gs.Spherical][int(rng.randint(4))]
+    kw = dict(latlon=latlon, temporal=temporal, len_scale=ls, anis=anis, angles=angles)
+    if latlon:
+        kw["geo_scale"] = R
+        if rng.rand() < 0.5:
+            kw["dim"] = int(rng.randint(1, 5))          # ignored: forced to 3 (+1)
+    elif temporal and rng.rand() < 0.5:
+        kw["spatial_dim"] = dim - 1
+    else:
+        kw["dim"] = dim
+    m = Model(**kw)
+    ops = gen_history13(rng, latlon, temporal, dim)
+    n = int(rng.randint(1, 4))
+    pos = np.round(rng.uniform(-5, 5, (4, n)), 3)
+    q = np.round(rng.uniform(-5, 5, (4, n)), 3)
+    if latlon:
+        lat, lon = gen_latlon(rng, n)
+        pos[0], pos[1], pos[2] = lat, lon, np.round(rng.uniform(-50, 50, n), 3)
+        qlat, qlon = gen_latlon(rng, n)
+        q[:3] = G_latlon2pos(qlat, qlon, R) * rng.choice([1.0, 1.0, 0.7, 1.3], size=(1, n))
+        q[3] = np.round(rng.uniform(-50, 50, n), 3)
+    steps = []
+
+    def read(final):
+        out = dict(dim=int(m.dim), len_scale=float(m.len_scale), anis=np.array(m.anis, dtype=float), angles=np.array(m.angles, dtype=float))
+        if final or rng.rand() < 0.7:
+            out["iso"] = np.array(m.isometrize(pos[:m.field_dim]))
+        if final or rng.rand() < 0.7:
+            out["ani"] = np.array(m.anisometrize(q[:m.dim]))
+        return out
+    steps.append(("ok", read(not ops)))
+    for i, op in enumerate(ops):
+        st = apply_op13(m, op)
+        steps.append((st, read(i == len(ops) - 1)))
+    lops = [dict(k="dim", d=int(v)) if k == "dim" else dict(k=k, v=fbits(np.atleast_1d(np.asarray(v, dtype=float)))) for k, v in ops]
+    case = dict(model=Model.__name__, latlon=latlon, temporal=temporal, dim=dim, geo_scale=R, len_scale=ls, anis=anis, angles=angles,
+                history=[[k, v] for k, v in ops], pos=pos.tolist(), q=q.tolist())
+    one = lambda v: fbits(np.atleast_1d(np.asarray(v, dtype=float)))
+    add(dict(op="ll_hist", latlon=latlon, temporal=temporal, dim=dim, R=f1(m.geo_scale), len_scale=one(ls), anis=one(anis), angles=one(angles),
+             ops=lops, n=n, pos=fbits(pos), q=fbits(q)),
+        "history" + ("-latlon" if latlon else "-metric") + ("-temporal" if temporal else ""), steps, 1e-12, (R if latlon else 1.0) + 50.0, case)
+    return ops
+
+
+def G_latlon2pos(lat, lon, R):
+    """own conversion (used only to build query points)"""
+    return R * unit(lat, lon).T
+
+
+def cmp_hist13(steps, r, tol, scale):
+    if isinstance(r, str) or len(r) != len(steps):
+        return f"model answered {r if isinstance(r, str) else len(r)} for {len(steps)} steps"
+    for i, ((st, obs), mo) in enumerate(zip(steps, r)):
+        if mo[0] != st:
+            return f"step {i}: setter status {st} (gstools) vs {mo[0]} (model)"
+        if int(mo[1]) != obs["dim"]:
+            return f"step {i}: dim {obs['dim']} vs {mo[1]}"
+        if unbits([mo[2]])[0] != obs["len_scale"]:
+            return f"step {i}: len_scale {obs['len_scale']} vs {unbits([mo[2]])[0]}"
+        for key, idx in (("anis", 3), ("angles", 4)):
+            lean = np.asarray(unbits(mo[idx]), dtype=float) if mo[idx] else np.zeros(0)
+            if not (lean.shape == obs[key].shape and np.array_equal(lean + 0.0, obs[key] + 0.0)):
+                return f"step {i}: {key} {obs[key].tolist()} (gstools) vs {lean.tolist()} (model)"
+        for key, idx, sc in (("iso", 5, scale), ("ani", 6, 180.0 + scale)):
+            if key in obs:
+                lean = np.array([unbits(p_) for p_ in mo[idx]], dtype=float).T
+                if not close(lean, obs[key], tol, sc):
+                    return f"step {i}: {'isometrize' if key == 'iso' else 'anisometrize'} {obs[key].tolist()} (gstools) vs {lean.tolist()} (model)"
+    return None
 
 
 # ====================================================================== correspondence (tie B)
@@ -398,12 +566,22 @@ def correspondence(ctx):
             if "x" in got:
                 add(dict(op="ll_fitlag", R=f1(R), latlon=ll, x=fbits(xs)), "fit-lags" + ("-latlon" if ll else "-metric"), got["x"], 1e-13, R,
                     dict(R=R, latlon=ll, x=xs.tolist()))
+        # --- in-place histories: read / change / read on live lat-lon, temporal and plain model objects
+        for t in range(ctx.scale(260, 2600)):
+            for k, _v in hist_case13(rng, gs, add):
+                dist["history op: " + k] = dist.get("history op: " + k, 0) + 1
     res = run_driver(ops)
     disagreements, samples = [], []
     nontrivial = set()
     for op, (kind, real, tol, scale, case, nt), r in zip(ops, checks, res):
         if isinstance(r, dict) and "error" in r:
             disagreements.append({"what": f"{kind}: model error {r['error']}", "case": case})
+            continue
+        if kind.startswith("history"):
+            why = cmp_hist13(real, r, tol, scale)
+            if why is not None:
+                disagreements.append({"what": f"{kind}: gstools differs from the Lean model after a setter history: {why}", "case": case})
+            nontrivial.add((kind, json_key(case)))
             continue
         if kind.endswith("model-state"):
             lean = [r[0], r[1], dec(r[2]).tolist(), dec(r[3]).tolist()]
@@ -446,7 +624,10 @@ def correspondence(ctx):
     return {"evaluations": len(ops), "distinct_nontrivial": len(nontrivial),
             "rule": "per round: random + boundary lat/lon (poles, date line, |lon| up to 725), radius in {1, 180/pi, 6371, random}; "
                     "real gstools function / CovModel method vs the Lean model on Float at 1e-12..1e-13 (exact for constructor state); "
-                    "distinct = different (kind, input); antipodal haversine pairs and bounding boxes with arcsin argument in (1-1e-6, 1) are discarded",
+                    "distinct = different (kind, input); antipodal haversine pairs and bounding boxes with arcsin argument in (1-1e-6, 1) are discarded; "
+                    "histories: live lat-lon / lat-lon+temporal / temporal (1-3 spatial dims) / plain model objects, constructor + 1-8 setters (anis, angles, "
+                    "len_scale scalar / list, dim up and down, single-entry re-assignments, rejected values), state (exact) and isometrize / anisometrize "
+                    "(1e-12) read after every step against GSV.Model.LatLon.msRun",
             "samples": samples, "disagreements": disagreements[:10], "distribution": dist}
 
 
@@ -457,6 +638,99 @@ def scale_name(R):
 def json_key(case):
     import json
     return json.dumps(case, sort_keys=True, default=str)
+
+
+# ====================================================================== independent bookkeeping for histories (search)
+def axis_pairs(d):
+    """rotation planes in the documented order: (0,1), (0,2), (1,2), (0,3), ... (brute force over axis pairs)"""
+    return [(i, j) for j in range(1, d) for i in range(j)]
+
+
+def ref_rot_spatial(sd, ang):
+    """documented conventions of the purely spatial rotation (1-D none, 2-D counter-clockwise, 3-D Rx(roll) Ry(pitch) Rz(yaw))"""
+    if sd <= 1:
+        return np.eye(max(sd, 0))
+    if sd == 2:
+        c, s_ = np.cos(ang[0]), np.sin(ang[0])
+        return np.array([[c, -s_], [s_, c]])
+    y, p_, r = ang[:3]
+    rz = np.array([[np.cos(y), -np.sin(y), 0], [np.sin(y), np.cos(y), 0], [0, 0, 1]])
+    ry = np.array([[np.cos(p_), 0, np.sin(p_)], [0, 1, 0], [-np.sin(p_), 0, np.cos(p_)]])
+    rx = np.array([[1, 0, 0], [0, np.cos(r), -np.sin(r)], [0, np.sin(r), np.cos(r)]])
+    return rx @ ry @ rz
+
+
+class RefModel13:
+    """what (dim, len_scale, anis, angles) of a lat-lon / temporal / plain model must be after a setter history, from the
+    documentation: ratios padded in front with 1 / cut, angles padded behind with 0 / cut; a list of length scales (edge padded)
+    redefines the ratios l[i]/l[0]; lat-lon: dim forced to 3 (+1), the two spatial ratios 1, all angles 0; temporal: every
+    angle of a plane that contains the time axis (the last one) is 0 - whatever the order of assignments and dim changes;
+    a rejected assignment (ratio not > 0, dim < 1) changes nothing"""
+
+    def __init__(self, latlon, temporal, dim, ls, anis, angles):
+        self.latlon, self.temporal = latlon, temporal
+        self.dim = 3 + int(temporal) if latlon else dim
+        self.L, self.anis = None, None
+        self._len(ls, anis)
+        self.angles = self._angles(angles)
+
+    def _pad_anis(self, anis):
+        a = [float(v) for v in np.atleast_1d(anis)][:max(self.dim - 1, 0)]
+        return [1.0] * (self.dim - 1 - len(a)) + a
+
+    def _angles(self, angles):
+        pairs = axis_pairs(self.dim)
+        a = [float(v) for v in np.atleast_1d(angles)][:len(pairs)]
+        a = a + [0.0] * (len(pairs) - len(a))
+        if self.latlon:
+            return [0.0] * len(pairs)
+        if self.temporal:
+            a = [0.0 if j == self.dim - 1 else v for v, (i, j) in zip(a, pairs)]
+        return a
+
+    def _len(self, ls, anis):
+        ls = [float(v) for v in np.atleast_1d(ls)][:self.dim]
+        if len(ls) == 1:
+            new = self._pad_anis(anis)
+        else:
+            full = ls + [ls[-1]] * (self.dim - len(ls))
+            with np.errstate(all="ignore"):
+                new = [float(np.float64(v) / np.float64(full[0])) for v in full[1:]]
+        if not all(v > 0 for v in new):
+            raise ValueError("ratio")
+        if self.latlon:
+            new = [1.0, 1.0] + new[2:]
+        self.L, self.anis = ls[0], new
+
+    def apply(self, op):
+        k, v = op
+        if k == "anis":
+            self._len([self.L], v)
+        elif k == "angles":
+            self.angles = self._angles(v)
+        elif k == "len":
+            self._len(v, self.anis)
+        elif k == "dim":
+            d = 3 + int(self.temporal) if self.latlon else int(v)
+            if d < 1:
+                raise ValueError("dim")
+            self.dim = d
+            self.anis = self._pad_anis(self.anis)
+            self.angles = self._angles(self.angles)
+
+    def isometrize(self, R, x):
+        """expected isometrize of the points x (field_dim x n): lat-lon -> sphere of radius R (+ t / last ratio);
+        temporal -> blockdiag(S^-1 R^T of the spatial part, 1 / last ratio); plain -> S^-1 R^T"""
+        x = np.asarray(x, dtype=float)
+        if self.latlon:
+            sp = R * unit(x[0], x[1]).T
+            return np.vstack([sp, x[2:3] / self.anis[-1]]) if self.temporal else sp
+        sd = self.dim - int(self.temporal)
+        if sd > 3:
+            return None
+        rot = ref_rot_spatial(sd, self.angles[:sd * (sd - 1) // 2])
+        sp = np.diag(1.0 / np.array([1.0] + self.anis[:sd - 1])) @ rot.T @ x[:sd]
+        return np.vstack([sp, x[sd:sd + 1] / self.anis[-1]]) if self.temporal else sp
 
 
 # ====================================================================== search (real API, independent oracles)
@@ -910,6 +1184,186 @@ def search(ctx, deep=False):
                 if not (np.allclose(i_full[:sd], i_sp, atol=1e-12) and np.allclose(i_full[sd], x[sd] / an[-1], rtol=1e-14, atol=0)):
                     report("isometrize:rotation-into-time", "spatio-temporal model: isometrize is not blockdiag(spatial isometrize, 1/anis[-1])",
                            dict(spatial_dim=sd, anis=an.tolist(), angles=ag.tolist(), x=x.tolist()))
+        # ---------- S15: geometry after in-place histories (read, change, read) of lat-lon / temporal model objects
+        nh = ctx.scale(220, 2500) * (2 if deep else 1)
+        h_ops, h_cfg, h_pipe = {}, {}, {}
+        for t in range(nh):
+            latlon, temporal, dim = gen_hist_config(rng)
+            if not latlon and not temporal and dim > 3:
+                dim = 3
+            R = gen_radius(rng) if latlon else 1.0
+            ls = gen_vals(rng, "len", dim, bad=False)
+            anis = gen_vals(rng, "anis", dim, bad=False)
+            angles = gen_vals(rng, "angles", dim, bad=False)
+            # geometry does not depend on the class; classes without an analytic spectral sampler cost 30-80 ms per SRF object
+            name, Model = pick_model(rng, gs)
+            if rng.rand() < 0.7:
+                name = ["Gaussian", "Exponential"][int(rng.randint(2))]
+                Model = getattr(gs, name)
+            var = float(np.round(rng.uniform(0.5, 3.0), 2))
+            kw = dict(latlon=latlon, temporal=temporal, len_scale=ls, anis=anis, angles=angles, var=var)
+            if latlon:
+                kw["geo_scale"] = R
+            elif temporal and t % 2:
+                kw["spatial_dim"] = dim - 1
+            else:
+                kw["dim"] = dim
+            try:
+                m = Model(**kw)
+            except ValueError:
+                continue
+            ref = RefModel13(latlon, temporal, dim, ls, anis, angles)
+            ops = gen_history13(rng, latlon, temporal, dim)
+            if not latlon:      # independent rotation formulas exist up to three spatial dimensions
+                ops = [(k, min(v, 3 + int(temporal)) if k == "dim" else v) for k, v in ops]
+            cfg = ("latlon" if latlon else "metric") + ("+temporal" if temporal else "")
+            h_cfg[cfg] = h_cfg.get(cfg, 0) + 1
+            hcase = dict(model=name, latlon=latlon, temporal=temporal, dim=dim, geo_scale=R, len_scale=ls, anis=anis, angles=angles, var=var,
+                         history=[[k, v] for k, v in ops])
+            seed = int(rng.randint(1, 10 ** 6))
+
+            def points(k):
+                if latlon:
+                    la, lo = gen_latlon(rng, k)
+                    return np.vstack([la, lo, np.round(rng.uniform(-30, 30, k), 3)])[:m.field_dim]
+                return np.round(rng.uniform(-5, 5, (m.dim, k)), 3)
+            bad = False
+            for i, op in enumerate(ops + [None]):
+                # use the object before changing it (anything remembered from here would be stale afterwards)
+                use = ["isometrize", "anisometrize", "srf", "krige", "main_axes", "none"][int(rng.randint(6))] if op is not None else "none"
+                p0 = points(4)
+                try:
+                    if use == "isometrize":
+                        m.isometrize(p0)
+                    elif use == "anisometrize":
+                        m.anisometrize(m.isometrize(p0))
+                    elif use == "srf":
+                        gs.SRF(m, seed=seed, mode_no=8)(p0)
+                    elif use == "krige":
+                        gs.krige.Simple(m, p0, rng.randn(4))(p0[:, :2])
+                    elif use == "main_axes":
+                        m.main_axes()
+                except Exception as ex:
+                    report("history:use-exception", f"{use} on a model changed in place raised {type(ex).__name__}: {ex}", dict(hcase, step=i))
+                    bad = True
+                    break
+                # state and geometry of the CURRENT state
+                ev += 1
+                if not (m.dim == ref.dim and np.array_equal(np.asarray(m.anis), ref.anis) and np.array_equal(np.asarray(m.angles) + 0.0, np.array(ref.angles) + 0.0)):
+                    report("history:state" + ("-latlon" if latlon else "") + ("-temporal" if temporal else ""),
+                           "dim / anis / angles after a setter history differ from the documented rules (lat-lon: dim 3(+1), spatial ratios 1, "
+                           "angles 0; temporal: angles of planes containing the time axis 0; len_scale list -> ratios; padding)",
+                           dict(hcase, step=i), got=[int(m.dim), np.asarray(m.anis).tolist(), np.asarray(m.angles).tolist()],
+                           want=[ref.dim, ref.anis, ref.angles])
+                    bad = True
+                    if m.dim != ref.dim:
+                        break
+                x = points(5)
+                want = ref.isometrize(m.geo_scale, x)
+                got = m.isometrize(x)
+                ev += 1
+                sc = (R + 30.0) * max(1.0, 1.0 / min(ref.anis + [1.0]))
+                if want is not None and not (got.shape == want.shape and np.allclose(got, want, rtol=0, atol=1e-12 * sc)):
+                    report("history:isometrize" + ("-latlon" if latlon else "") + ("-temporal" if temporal else ""),
+                           "isometrize of a model changed in place: lat-lon -> not the sphere point (+ t / last ratio); temporal -> not "
+                           "blockdiag(spatial S⁻¹Rᵀ, 1 / last ratio): the time axis is rotated into space or scaled by the wrong ratio",
+                           dict(hcase, step=i, used_before=use, x=x.tolist()), got=got.tolist(), want=want.tolist())
+                    bad = True
+                    break
+                if bad:
+                    break
+                if temporal:
+                    # direct form of the property: a pure time offset moves only the last isometrized coordinate, by dt / anis[-1]
+                    dt = float(np.round(rng.uniform(0.5, 5), 3))
+                    xs = x.copy()
+                    xs[-1] += dt
+                    dlt = m.isometrize(xs) - got
+                    ev += 1
+                    if not (np.allclose(dlt[:-1], 0, atol=1e-11 * sc) and np.allclose(dlt[-1], dt / m.anis[-1], rtol=1e-9, atol=1e-11 * sc)):
+                        report("history:time-axis", "after a setter history a pure time offset dt does not move the isometrized point by "
+                               "(0, ..., 0, dt / anis[-1])", dict(hcase, step=i, dt=dt), got=dlt.tolist())
+                        bad = True
+                        break
+                back = m.anisometrize(got)
+                ev += 1
+                if latlon:
+                    okb = np.allclose(G.latlon2pos(back[:2], m.geo_scale), got[:3], atol=1e-7 * R) and (not temporal or np.allclose(back[2], x[2], atol=1e-9 * 30))
+                else:
+                    okb = np.allclose(back, x, atol=1e-10 * sc)
+                if not okb:
+                    report("history:roundtrip", "anisometrize(isometrize(x)) != x for a model changed in place", dict(hcase, step=i))
+                    bad = True
+                    break
+                if op is None:
+                    break
+                try:
+                    ref.apply(op)
+                    want_st = "ok"
+                except ValueError:
+                    want_st = "ValueError"
+                okey = op[0] + ("-list" if isinstance(op[1], list) and len(op[1]) > 1 else "")
+                h_ops[okey] = h_ops.get(okey, 0) + 1
+                try:
+                    st = apply_op13(m, op)
+                except Exception as ex:
+                    st = type(ex).__name__
+                if st != want_st:
+                    report("history:setter-status", f"setter {op[0]} = {op[1]}: expected {want_st}, got {st}", dict(hcase, step=i))
+                    bad = True
+                    break
+            if bad:
+                continue
+            # pipelines on the live object after the history against a FRESH plain isotropic model at independently transformed positions
+            d_iso = ref.dim
+            npnt = int(rng.randint(3, 8))
+            pos = points(npnt)
+            ipos = ref.isometrize(m.geo_scale, pos)
+            if ipos is None:
+                continue
+            if latlon:
+                uu = unit(pos[0], pos[1])
+                if not (angle(uu[:, None, :], uu[None, :, :]) + np.eye(npnt) > 1e-3).all():
+                    continue
+            try:
+                # everything that is not geometry is taken over from the live object (optional arguments keep their values on dim changes)
+                iso_m = Model(dim=d_iso, var=float(m.var), len_scale=float(m.len_scale), **{k_: getattr(m, k_) for k_ in m.opt_arg})
+            except ValueError:
+                continue        # e.g. an optional argument that is out of bounds in the new dimension (C14's subject)
+            try:
+                kind = ["srf", "krige", "condsrf"][t % 3]
+                if kind == "srf":
+                    a = gs.SRF(m, seed=seed, mode_no=48)(pos)
+                    b = gs.SRF(iso_m, seed=seed, mode_no=48)(ipos)
+                    ev += 1
+                    okp = np.allclose(a, b, atol=1e-9 * np.sqrt(var) * (1 + (R + 30) / float(m.len_scale)))
+                else:
+                    val = np.round(rng.randn(npnt), 3)
+                    tgt = points(4)
+                    itgt = ref.isometrize(m.geo_scale, tgt)
+                    ka, kb = gs.krige.Simple(m, pos, val), gs.krige.Simple(iso_m, ipos, val)
+                    cond = np.linalg.cond(ka._krige_mat)
+                    if not np.isfinite(cond) or cond > 1e6:
+                        continue
+                    tolk = 1e-12 * cond * 100 + 1e-8
+                    if kind == "krige":
+                        fa, va = ka(tgt, return_var=True)
+                        fb, vb = kb(itgt, return_var=True)
+                        okp = np.allclose(fa, fb, rtol=tolk, atol=tolk) and np.allclose(va, vb, rtol=tolk, atol=tolk * var)
+                    else:
+                        a = gs.CondSRF(ka, seed=seed, mode_no=32)(tgt)
+                        b = gs.CondSRF(kb, seed=seed, mode_no=32)(itgt)
+                        okp = np.allclose(a, b, rtol=tolk, atol=tolk * (1 + (R + 30) / float(m.len_scale)))
+                    ev += 1
+            except Exception as ex:
+                report("history:pipeline-exception", f"{type(ex).__name__}: {ex}", hcase)
+                continue
+            h_pipe[kind] = h_pipe.get(kind, 0) + 1
+            if not okp:
+                report("history:pipeline:" + kind, f"{kind} with a lat-lon / temporal model changed in place differs from the fresh plain isotropic model "
+                       "at the independently transformed positions (sphere point / blockdiag(spatial S⁻¹Rᵀ, 1/time ratio))",
+                       dict(hcase, final=[ref.dim, ref.L, ref.anis, ref.angles]))
+        hist_summary = f"; {nh} live model objects {h_cfg} walked through setter histories {h_ops} with uses before every change: state vs independent " \
+                       f"bookkeeping, isometrize vs sphere point / block-diagonal map, pure time offsets, round trips after every step; pipelines after the history {h_pipe}"
     summary = (f"{ev} checks on the real API: D16 directed case; per random configuration (3-D-valid models x geo_scale in radian/degree/km/random, "
                "lat-lon incl. poles, date line, |lon| up to 725): isometrize on the sphere and round trips; captured kriging matrix vs cov_yadrenko of an "
                "independent great-circle distance and vs the 3-D model; simple kriging vs independent solve; rotation invariance (random SO(3) + full turns); "
@@ -917,5 +1371,5 @@ def search(ctx, deep=False):
                "binning units: vario_estimate(latlon) with bin_edges given/None x bin_no given/None x max_dist given/None x four geo_scale kinds - returned "
                "centres, edges handed to the kernel, estimates and counts vs brute-force great-circle binning, and 'other unit => same variogram, centres scaled'; "
                "standard_bins over the same combinations (lat-lon and metric, structured and unstructured) vs an independent box diameter, and its unit change; "
-               "fit_variogram recovers a Yadrenko variogram; lat-lon+time: state, t/anis[-1], setters, 4-D equivalence, kriging matrix; metric temporal: block-diagonal isometrize")
+               "fit_variogram recovers a Yadrenko variogram; lat-lon+time: state, t/anis[-1], setters, 4-D equivalence, kriging matrix; metric temporal: block-diagonal isometrize" + hist_summary)
     return {"evaluations": ev, "violations": viol[:8], "summary": summary}
